@@ -1090,17 +1090,16 @@ func (x *fx) ret(i *ssa.Return) {
 		return pe.look(name)
 	}
 	env.old = x.paramEnv(x.entryMem)
+	// vacuity canary: this return must be reachable (placed before the
+	// postconditions, which are assumed once checked)
+	x.obs = append(x.obs, &Oblig{Fn: x.c.Pkg + "." + x.c.Name, Name: fmt.Sprintf("%s.%s#vacuity:ret%d", x.pkgShort(), x.c.Name, x.retCount), Kind: "canary", PC: x.curPC, Goal: "false", NSteps: len(x.steps), Expect: "sat", Desc: "return is reachable under the contract", fx: x})
 	for k, cl := range x.c.Ensures {
 		g := x.evalBool(cl.E, env)
 		if o := x.oblige("post", clauseLabel(cl, k), g, "postcondition: "+cl.Src); o != nil {
 			o.Src, o.Line = cl.Src, cl.Line
-			if x.retCount > 1 || true {
-				o.Name = fmt.Sprintf("%s.%s#post:%s@ret%d", x.pkgShort(), x.c.Name, clauseLabel(cl, k), x.retCount)
-			}
+			o.Name = fmt.Sprintf("%s.%s#post:%s@ret%d", x.pkgShort(), x.c.Name, clauseLabel(cl, k), x.retCount)
 		}
 	}
-	// vacuity canary: this return must be reachable
-	x.obs = append(x.obs, &Oblig{Fn: x.c.Pkg + "." + x.c.Name, Name: fmt.Sprintf("%s.%s#vacuity:ret%d", x.pkgShort(), x.c.Name, x.retCount), Kind: "canary", PC: x.curPC, Goal: "false", NSteps: len(x.steps), Expect: "sat", Desc: "return is reachable under the contract", fx: x})
 }
 
 func isF32(t types.Type) bool {
